@@ -24,6 +24,7 @@ func Run(ctx *core.Ctx) {
 		"failing renders are compared on error/no-error only")
 	Families(ctx)
 	RecursionFamily(ctx)
+	LoopHelperFamily(ctx)
 	RandomTraces(ctx, ctx.Pick(1500, 30000))
 }
 
